@@ -7,13 +7,12 @@ import (
 	"errors"
 
 	"github.com/attestantio/vouch/internal/vnd"
-	"github.com/rs/zerolog"
 	"github.com/wealdtech/go-majordomo"
 )
 
 // c16New builds the service through its constructor.
 func c16New(m majordomo.Service, location string, fallbackLocation string) *Service {
-	s, err := New(context.Background(), WithLogLevel(zerolog.Disabled), WithMajordomo(m), WithLocation(location), WithFallbackLocation(fallbackLocation))
+	s, err := New(context.Background(), WithLogLevel(vnd.LogLevel()), WithMajordomo(m), WithLocation(location), WithFallbackLocation(fallbackLocation))
 	vnd.Assert(err == nil && s != nil, "C16.new.accepted")
 	return s
 }
